@@ -141,7 +141,9 @@ def _check(case):
         # final stage; x = 0 meets x - rhs = 0 exactly but is outside the domain of the equations in logs
         for nm in names:
             a_ = pO.arr(nm)
-            if not np.all(np.isfinite(a_)) or np.any(a_ <= 0):
+            if np.any(a_ == 0) or np.any(np.isinf(a_)) or (np.any(np.isnan(a_)) and np.any(a_[np.isfinite(a_)] < 1e-250)):
+                # (exp() of the solver's log-values gives 0.0 or inf at the edge of the float range, never a negative
+                # number: negative or otherwise wrong values are judged below)
                 return {"labels": ["collapsed_pseudo_solution"], "nontrivial": False}
     # ---- 1. residuals, frame by frame -----------------------------------------------------------------
     frames = info.get("frames", ())
